@@ -51,6 +51,7 @@ def run(ctx, repo):
     ctx.call(R6B.r_token_value_format, repo)
     ctx.call(R6B.r_recursion_inventory, repo)
     ctx.call(R10.r_dispatch_names_closed, repo, FRONT)
+    ctx.call(R10.r_directive_name_exact, repo)
 
 
 if __name__ == '__main__':
